@@ -3,6 +3,7 @@
 (* value.  Inputs are constructed from grid coordinates: x = (k + t/16)*res+bias *)
 (* in the field's own float type; the event carries k, t and the integer kout    *)
 (* of the pattern the encoder wrote (64-bit two's complement sequences).         *)
+(*   t in {0, 1/16, 1/4, 7/16, 1/2 -+ 2^-14, 1/2, 9/16, 3/4, 15/16};                   *)
 (*   kout in {k, k+1}; the nearer neighbour outside the slack band sigma around  *)
 (*   the half step; |decode(encode(x)) - x| <= res/2 + sigma*res; kout is        *)
 (*   monotone along the k,t-sorted probe sequence of a field.                    *)
@@ -24,8 +25,15 @@ MantOf(ft) == IF ft = "f32" THEN 24 ELSE 53
 SigExpF(r, ft) == Max2(BitLen(r.kbits), BiasBits(r.id)) + 5 - MantOf(ft)
 SigExp(r) == SigExpF(r, cur.ftype)
 FtypeOf(id) == IF id \in FieldIds THEN FieldOf(id).ftype ELSE "f32"      \* the hand-written bias quantisers are f32
-(* distance of t from the half step is at least 2^GapExp *)
-GapExp(t16) == CASE t16 \in {0} -> -1 [] t16 \in {1, 15} -> -2 [] t16 \in {4, 12} -> -2 [] t16 \in {7, 9} -> -4 [] OTHER -> -100
+(* t = tnum / 2^tden; its distance d / 2^tden from the half step is at least 2^GapExp with           *)
+(* GapExp = floor(log2 d) - tden  (d = |tnum - 2^(tden-1)|); at the half step itself there is no gap *)
+RECURSIVE Log2Floor(_)
+Log2Floor(n) == IF n <= 1 THEN 0 ELSE 1 + Log2Floor(n \div 2)
+HalfNum(r) == 2^(r.tden - 1)
+Below(r) == r.tnum < HalfNum(r)
+Above(r) == r.tnum > HalfNum(r)
+GapExp(r) == IF r.tnum = HalfNum(r) THEN -100
+             ELSE Log2Floor(IF Below(r) THEN HalfNum(r) - r.tnum ELSE r.tnum - HalfNum(r)) - r.tden
 
 LessS(a, b) == IF a[1] # b[1] THEN a[1] = 1 ELSE LessU(a, b)
 LeS(a, b) == a = b \/ LessS(a, b)
@@ -35,8 +43,8 @@ ProbeOk(r) ==
         up == Inc(r.kbits) IN
     /\ r.id = cur.id /\ ~r.enc_err /\ ~r.dec_absent /\ r.finite_x
     /\ se <= -2 => r.kout \in {r.kbits, up}                       \* one of the two neighbours
-    /\ (r.t16 < 8 /\ se < GapExp(r.t16)) => r.kout = r.kbits      \* below the half step: round down
-    /\ (r.t16 > 8 /\ se < GapExp(r.t16)) => r.kout = up           \* above: round up
+    /\ (Below(r) /\ se < GapExp(r)) => r.kout = r.kbits           \* below the half step: round down
+    /\ (Above(r) /\ se < GapExp(r)) => r.kout = up                \* above: round up
     \* decoded result within half a step plus slack (err in units of 2^-20 steps)
     /\ se <= 8 => r.err_q20 <= 524288 + (IF se + 20 >= 0 THEN 2^(se + 20) ELSE 1) + 2
     \* monotone along the sorted probe sequence
@@ -48,7 +56,7 @@ TraceProbe == IsEvent("Probe") /\ ProbeOk(Rec[l]) = TRUE /\ prev' = Rec[l].kout 
 Init == l = 1 /\ cur = [id |-> "", ftype |-> "f64"] /\ prev = <<>>
 Next == TraceBegin \/ TraceProbe
 
-Explain(r) == IF r.ev = "Probe" THEN [sigexp |-> SigExpF(r, FtypeOf(r.id)), gapexp |-> GapExp(r.t16), field |-> r.id,
+Explain(r) == IF r.ev = "Probe" THEN [sigexp |-> SigExpF(r, FtypeOf(r.id)), gapexp |-> GapExp(r), field |-> r.id,
                                       rule |-> "kout in {k,k+1}; nearer neighbour outside the slack band; err <= 1/2 + sigma; monotone"]
               ELSE [event |-> r.ev]
 Accepted == LET d == TLCGet("stats").diameter IN
